@@ -436,9 +436,12 @@ class NetworkMixin(RadioMixin):
                 # pass it along
                 self._write(self.frame_buf.header.to_node, TX_ROUTED)
                 return (True, 0)
-        elif self._addr != NETWORK_DEFAULT_ADDR:  # multicast not enabled
-            # pass it along
-            self._write(self.frame_buf.header.to_node, TX_ROUTED)
+            else:  # an unassigned node ignores frames meant for other nodes
+                return (True, 0)
+        else:  # multicast not enabled
+            if self._addr != NETWORK_DEFAULT_ADDR:
+                # pass it along
+                self._write(self.frame_buf.header.to_node, TX_ROUTED)
             msg_t = 0
         return (True, msg_t)
 
